@@ -284,6 +284,13 @@ func (k KeyRing) VerifyJSONs(ctx context.Context, requests []VerifyJSONRequest) 
 
 		// Hold the new keys and remove them from the request queue.
 		for req, res := range fetched {
+			if _, requested := keyRequests[req]; !requested {
+				if _, held := keysFetched[req]; held {
+					// A key we did not ask this fetcher for must not displace one
+					// that the database or an earlier fetcher already supplied.
+					continue
+				}
+			}
 			keysFetched[req] = res
 			delete(keyRequests, req)
 		}
